@@ -36,6 +36,14 @@ CHECKS["C08"] = dict(
     note="Template methods with constructed parameters are the reference (C05 decides their formulas); tolerance 1e-9 vs reference, 1e-10 vector-vs-scalar.",
     design="7/C08",
 )
+CHECKS["C07"] = dict(
+    technique="property-based testing (Hypothesis): probability-integral / Rosenblatt transform of generated samples judged by distribution-free DKW and Hoeffding bounds; seeding metamorphic relations",
+    text="Generated families (12) and 2-4-D hierarchical models with all dependence structures; sample sizes 1..2e5 (quick) / 1e6 (thorough); random_state None/int/Generator. "
+         "The harness' own Rosenblatt transform (from the spec) of each sample must be uniform (DKW, error prob 1e-12), also on the halves split at the conditioner's median, "
+         "and pairwise independent; shapes, support and all seeding relations are asserted. Exploration level; statistical statements hold up to the DKW resolution at the drawn n.",
+    note="Reference cdfs from vp/oracles/formulas.py (decided against virocon by C05); von Mises compared modulo 2 pi against a quadrature table.",
+    design="7/C07",
+)
 NOT_YET = {}
 
 def main():
